@@ -18,3 +18,4 @@ echo "== run check $id ($tier) on /repo with the change"
 cd /repo && git apply $out/patch.diff || { echo "PATCH DOES NOT APPLY"; exit 1; }
 cd /verif && bin/vcheck $id --tier $tier 2>&1 | grep -E "VIOLATION|  harness=|OK property|VACUOUS|MISMATCH|ENGINE|KNOWN" | head -8
 cd /repo && git checkout -- . && git status --short | head -3
+cd /verif && git checkout -- evidence/ 2>/dev/null
